@@ -73,4 +73,18 @@ def emitStep {β : Type} (value : String → Option β) (ks : Kids β) (p : Stri
 def emitProps {β : Type} (supported : List String) (value : String → Option β) (kids : Kids β) : Kids β :=
   supported.foldl (emitStep value) kids
 
+/-! ### attributes -/
+
+/-- `collada.util._setAttribute(node, name, value)`: a value the model does not have (None) removes the attribute, any other value
+    replaces it in place or is appended (ElementTree keeps attributes in insertion order) -/
+def setAttr (attrs : List (String × String)) (name : String) : Option String → List (String × String)
+  | none => attrs.filter (fun p => p.1 != name)
+  | some x =>
+    if attrs.any (fun p => p.1 == name) then attrs.map (fun p => if p.1 == name then (name, x) else p)
+    else attrs ++ [(name, x)]
+
+/-- `node.get(name)` -/
+def getAttr (attrs : List (String × String)) (name : String) : Option String :=
+  (attrs.find? (fun p => p.1 == name)).map (·.2)
+
 end Pyc.Emit
